@@ -68,8 +68,16 @@ type parseContext struct {
 	snippets map[string][]Node
 	macros   map[string][]string
 
+	// How many more import directives can be expanded. Shared with parsers
+	// of imported files.
+	importsLeft *int
+
 	fileLocation string
 }
+
+// maxImports limits the total amount of import directive expansions done
+// while reading one configuration (including imported files).
+const maxImports = 10000
 
 func validateNodeName(s string) error {
 	if len(s) == 0 {
@@ -350,12 +358,13 @@ func (ctx *parseContext) readNodes() ([]Node, error) {
 	return res, nil
 }
 
-func readTree(r io.Reader, location string, expansionDepth int) (nodes []Node, snips map[string][]Node, macros map[string][]string, err error) {
+func readTree(r io.Reader, location string, expansionDepth int, importsLeft *int) (nodes []Node, snips map[string][]Node, macros map[string][]string, err error) {
 	ctx := parseContext{
 		Dispenser:    lexer.NewDispenser(location, r),
 		snippets:     make(map[string][]Node),
 		macros:       map[string][]string{},
 		nesting:      -1,
+		importsLeft:  importsLeft,
 		fileLocation: location,
 	}
 
@@ -387,7 +396,8 @@ func readTree(r io.Reader, location string, expansionDepth int) (nodes []Node, s
 }
 
 func Read(r io.Reader, location string) (nodes []Node, err error) {
-	nodes, _, _, err = readTree(r, location, 0)
+	importsLeft := maxImports
+	nodes, _, _, err = readTree(r, location, 0, &importsLeft)
 	nodes = expandEnvironment(nodes)
 	return
 }
